@@ -446,6 +446,17 @@ FIXED = [
 ]
 
 
+def nested_arrays(rng, depth):
+    """arrays of every length 0..3 nested in each other and in inline tables, with scalar leaves"""
+    r = rng.random()
+    if depth >= 4 or r < 0.25:
+        return rng.choice(["1", "'s'", "true", "1.5", "1979-05-27"])
+    if r < 0.4:
+        return "{ " + ", ".join(f"k{i} = {nested_arrays(rng, depth + 1)}" for i in range(rng.randint(1, 2))) + " }"
+    n = rng.choice([0, 1, 1, 1, 2, 3])
+    return "[" + ", ".join(nested_arrays(rng, depth + 1) for _ in range(n)) + "]"
+
+
 def run(ctx):
     translate(ctx)
     mods = ["TomlVerif.Props.C20", "driver"]
@@ -598,6 +609,21 @@ def run(ctx):
                 first = (ln, i[:300], m[:300])
     ctx.oblige("correspondence c20: model driver = implementation (read-only trace, mutable trace, tree before and after the integer rewrite) on every case",
                ndis == 0, f"{ndis} disagreements; shortest: {first}")
+    # the crate's own VisitMut client (DocumentFormatter behind toml::to_string_pretty) reaches every array: direct oracle
+    fdocs = [c[2] for c in cases if c[0] in ("docgen", "corpus", "shape", "fixed")][:4000 if ctx.tier != "quick" else 1200]
+    for _ in range(3000 if ctx.tier != "quick" else 600):
+        fdocs.append(("k = " + nested_arrays(rng, 0) + "\n").encode())
+    fdocs += [b"a = [[1, 2, 3]]\n", b"a = [[{ k = [1, 2], s = 'x' }]]\n", b"[[t]]\nv = [[['a', 'b', 'c']]]\n", b"a = [[], [[1, 2]], [3]]\n", b"a = [{ b = [[1, 2]] }]\n"]
+    rc, fout, _ = run_lines(tvh, "c20", ["F " + h(d) for d in fdocs])
+    fout += ["CRASH"] * (len(fdocs) - len(fout))
+    nfmt = 0
+    for d, o in zip(fdocs, fout):
+        if o == "fmt=ok":
+            nfmt += 1
+        elif o.startswith("fmt=BAD") or o.startswith("PANIC") or o == "CRASH":
+            ctx.violation(f"text={d[:80]!r}: toml::to_string_pretty (the DocumentFormatter visitor) did not reach every array: {o[:200]}",
+                          {"mode": "c20", "case": "F " + h(d), "text": d.decode("utf-8", "replace")[:2000], "impl": o[:3000], "witness": "F " + h(d)})
+    ctx.cov["formatter_walk_documents"] = nfmt
     if ctx.broken and not ctx.violations:
         for n, d in ctx.broken:
             ctx.violation(f"obligation no longer checks: {n}", {"unchecked": n, "detail": d[:1500], "searched": f"{len(cases)} documents"}, concrete=False)
